@@ -44,11 +44,11 @@ theorem Ty.isString_iff {t : Ty} : t.isString = true ↔ t = .string := by cases
 /-! ### L1 = L2 -/
 
 theorem wf_of_lookupKey {e : Ty} {k : String} : ∀ {ks : List String} {vs : List Payload} {y : Payload},
-    lookupKey k ks vs = some y → Payload.wfAll e vs = true → y.wf e = true
+    lookupKey k ks vs = some y → Payload.shapedAll e vs = true → y.shaped e = true
   | [], _, _, h, _ => by simp [lookupKey] at h
   | _ :: _, [], _, h, _ => by simp [lookupKey] at h
   | n :: ns, v :: vs, y, h, hw => by
-    simp only [Payload.wfAll, Bool.and_eq_true] at hw
+    simp only [Payload.shapedAll, Bool.and_eq_true] at hw
     simp only [lookupKey] at h
     split at h
     · cases h; exact hw.1
@@ -62,93 +62,93 @@ theorem andThen_ok (r : Bool) (k : Unit → Res Bool) (s : Bool) (hk : r = true 
 
 mutual
 theorem rawK_eq_rawB (sr : SetRawRec) : ∀ (t : Ty) (a b : Payload), t.plain = true →
-    a.wf t = true → b.wf t = true → rawK sr t a b = .ok (rawB t a b)
+    a.shaped t = true → b.shaped t = true → rawK sr t a b = .ok (rawB t a b)
   | t, .marked m p, q, hp, ha, hb => by
     cases q with
     | marked m' q' =>
-      simp only [Payload.wf, Bool.and_eq_true] at ha hb
+      simp only [Payload.shaped, Bool.and_eq_true] at ha hb
       simp only [rawK, rawB, rawK_eq_rawB sr t p q' hp ha.2 hb.2]
       by_cases h : (m == m') = true <;> simp [h]
     | _ => simp [rawK, rawB]
   | t, .unk r, q, _, _, _ => by cases q <;> simp [rawK, rawB]
   | t, .null, q, _, _, _ => by cases q <;> simp [rawK, rawB]
   | t, .b x, q, _, ha, hb => by
-    simp only [Payload.wf, Ty.isBool_iff] at ha
+    simp only [Payload.shaped, Ty.isBool_iff] at ha
     subst ha
-    cases q <;> simp [rawK, rawB, rawRhs, rawLeaf, primRawEq_bool, Payload.wf, Ty.isNumber, Ty.isString] at hb ⊢
+    cases q <;> simp [rawK, rawB, rawRhs, rawLeaf, primRawEq_bool, Payload.shaped, Ty.isNumber, Ty.isString] at hb ⊢
   | t, .n x, q, _, ha, hb => by
-    simp only [Payload.wf, Ty.isNumber_iff] at ha
+    simp only [Payload.shaped, Ty.isNumber_iff] at ha
     subst ha
-    cases q <;> simp [rawK, rawB, rawRhs, rawLeaf, primRawEq_num, Payload.wf, Ty.isBool, Ty.isString] at hb ⊢
+    cases q <;> simp [rawK, rawB, rawRhs, rawLeaf, primRawEq_num, Payload.shaped, Ty.isBool, Ty.isString] at hb ⊢
   | t, .s x, q, _, ha, hb => by
-    simp only [Payload.wf, Ty.isString_iff] at ha
+    simp only [Payload.shaped, Ty.isString_iff] at ha
     subst ha
-    cases q <;> simp [rawK, rawB, rawRhs, rawLeaf, primRawEq_str, Payload.wf, Ty.isBool, Ty.isNumber] at hb ⊢
+    cases q <;> simp [rawK, rawB, rawRhs, rawLeaf, primRawEq_str, Payload.shaped, Ty.isBool, Ty.isNumber] at hb ⊢
   | t, .seq xs, q, hp, ha, hb => by
-    cases t <;> simp [Payload.wf] at ha
+    cases t <;> simp [Payload.shaped] at ha
     case list e =>
       simp only [Ty.plain] at hp
-      cases q <;> simp [rawK, rawB, rawRhs, Payload.wf, Ty.isBool, Ty.isNumber, Ty.isString] at hb ⊢
+      cases q <;> simp [rawK, rawB, rawRhs, Payload.shaped, Ty.isBool, Ty.isNumber, Ty.isString] at hb ⊢
       case seq ys =>
         rw [rawAll_eq sr e xs ys hp ha hb]
         by_cases hl : xs.length = ys.length <;> simp [hl]
     case tuple ts =>
       simp only [Ty.plain] at hp
-      cases q <;> simp [rawK, rawB, rawRhs, Payload.wf, Ty.isBool, Ty.isNumber, Ty.isString] at hb ⊢
+      cases q <;> simp [rawK, rawB, rawRhs, Payload.shaped, Ty.isBool, Ty.isNumber, Ty.isString] at hb ⊢
       case seq ys => exact rawZip_eq sr ts xs ys hp ha hb
   | t, .smap kx xs, q, hp, ha, hb => by
-    cases t <;> simp [Payload.wf] at ha
+    cases t <;> simp [Payload.shaped] at ha
     case map e =>
       simp only [Ty.plain] at hp
-      cases q <;> simp [rawK, rawB, rawRhs, Payload.wf, Ty.isBool, Ty.isNumber, Ty.isString] at hb ⊢
+      cases q <;> simp [rawK, rawB, rawRhs, Payload.shaped, Ty.isBool, Ty.isNumber, Ty.isString] at hb ⊢
       case smap ky ys =>
         rw [rawMap_eq sr e kx xs ky ys hp ha.2 hb.2]
         by_cases hl : xs.length = ys.length <;> simp [hl]
     case object ns ts os =>
       simp only [Ty.plain] at hp
-      cases q <;> simp [rawK, rawB, rawRhs, Payload.wf, Ty.isBool, Ty.isNumber, Ty.isString] at hb ⊢
+      cases q <;> simp [rawK, rawB, rawRhs, Payload.shaped, Ty.isBool, Ty.isNumber, Ty.isString] at hb ⊢
       case smap ky ys => exact rawZip_eq sr ts xs ys hp ha.2 hb.2
   | t, .sset _ _, _, hp, ha, _ => by
-    cases t <;> simp [Payload.wf] at ha
+    cases t <;> simp [Payload.shaped] at ha
     simp [Ty.plain] at hp
   | t, .caps, _, hp, ha, _ => by
-    cases t <;> simp [Payload.wf] at ha
+    cases t <;> simp [Payload.shaped] at ha
     simp [Ty.plain] at hp
-  | _, .bad _, _, _, ha, _ => by simp [Payload.wf] at ha
+  | _, .bad _, _, _, ha, _ => by simp [Payload.shaped] at ha
 theorem rawAll_eq (sr : SetRawRec) : ∀ (e : Ty) (xs ys : List Payload), e.plain = true →
-    Payload.wfAll e xs = true → Payload.wfAll e ys = true → rawAll sr e xs ys = .ok (rawBAll e xs ys)
+    Payload.shapedAll e xs = true → Payload.shapedAll e ys = true → rawAll sr e xs ys = .ok (rawBAll e xs ys)
   | _, [], _, _, _, _ => by simp [rawAll, rawBAll]
   | _, _ :: _, [], _, _, _ => by simp [rawAll, rawBAll]
   | e, x :: xs, y :: ys, hp, ha, hb => by
-    simp only [Payload.wfAll, Bool.and_eq_true] at ha hb
+    simp only [Payload.shapedAll, Bool.and_eq_true] at ha hb
     simp only [rawAll, rawBAll, rawK_eq_rawB sr e x y hp ha.1 hb.1]
     cases rawB e x y
     · rfl
     · simpa [Res.andThen] using rawAll_eq sr e xs ys hp ha.2 hb.2
 theorem rawZip_eq (sr : SetRawRec) : ∀ (ts : List Ty) (xs ys : List Payload), Ty.plainL ts = true →
-    Payload.wfZip ts xs = true → Payload.wfZip ts ys = true → rawZip sr ts xs ys = .ok (rawBZip ts xs ys)
+    Payload.shapedZip ts xs = true → Payload.shapedZip ts ys = true → rawZip sr ts xs ys = .ok (rawBZip ts xs ys)
   | [], _, _, _, _, _ => by simp [rawZip, rawBZip]
-  | _ :: _, [], _, _, ha, _ => by simp [Payload.wfZip] at ha
-  | _ :: _, _ :: _, [], _, _, hb => by simp [Payload.wfZip] at hb
+  | _ :: _, [], _, _, ha, _ => by simp [Payload.shapedZip] at ha
+  | _ :: _, _ :: _, [], _, _, hb => by simp [Payload.shapedZip] at hb
   | t :: ts, x :: xs, y :: ys, hp, ha, hb => by
-    simp only [Payload.wfZip, Bool.and_eq_true] at ha hb
+    simp only [Payload.shapedZip, Bool.and_eq_true] at ha hb
     simp only [Ty.plainL, Bool.and_eq_true] at hp
     simp only [rawZip, rawBZip, rawK_eq_rawB sr t x y hp.1 ha.1 hb.1]
     cases rawB t x y
     · rfl
     · simpa [Res.andThen] using rawZip_eq sr ts xs ys hp.2 ha.2 hb.2
 theorem rawMap_eq (sr : SetRawRec) : ∀ (e : Ty) (ks : List String) (xs : List Payload) (ky : List String)
-    (ys : List Payload), e.plain = true → Payload.wfAll e xs = true → Payload.wfAll e ys = true →
+    (ys : List Payload), e.plain = true → Payload.shapedAll e xs = true → Payload.shapedAll e ys = true →
     rawMap sr e ks xs ky ys = .ok (rawBMap e ks xs ky ys)
   | _, [], _, _, _, _, _, _ => by simp [rawMap, rawBMap]
   | _, _ :: _, [], _, _, _, _, _ => by simp [rawMap, rawBMap]
   | e, k :: ks, x :: xs, ky, ys, hp, ha, hb => by
-    simp only [Payload.wfAll, Bool.and_eq_true] at ha
+    simp only [Payload.shapedAll, Bool.and_eq_true] at ha
     simp only [rawMap, rawBMap]
     cases hl : lookupKey k ky ys with
     | none => rfl
     | some y =>
-      have hy : y.wf e = true := wf_of_lookupKey hl hb
+      have hy : y.shaped e = true := wf_of_lookupKey hl hb
       simp only [rawK_eq_rawB sr e x y hp ha.1 hy]
       cases rawB e x y
       · rfl
@@ -247,15 +247,15 @@ theorem rawBMap_eq (e : Ty) (kx : List String) (xs : List Payload) (ky : List St
 theorem Tri.beq_iff (a b : Tri) : (a == b) = true ↔ a = b := by cases a <;> cases b <;> decide
 
 theorem rfnBoundRawEq_refl (a : Option Bound) : rfnBoundRawEq a a = true := by
-  cases a <;> simp [rfnBoundRawEq, Num.rawEqual_refl]
+  cases a <;> simp [rfnBoundRawEq, Num.rawEq_refl]
 
 theorem rfnBoundRawEq_symm (a b : Option Bound) : rfnBoundRawEq a b = rfnBoundRawEq b a := by
-  cases a <;> cases b <;> simp [rfnBoundRawEq, Num.rawEqual_symm]
+  cases a <;> cases b <;> simp [rfnBoundRawEq, Num.rawEq_symm]
 
 theorem rfnBoundRawEq_trans (a b c : Option Bound) (h1 : rfnBoundRawEq a b = true)
     (h2 : rfnBoundRawEq b c = true) : rfnBoundRawEq a c = true := by
   cases a <;> cases b <;> cases c <;> simp [rfnBoundRawEq] at h1 h2 ⊢
-  exact Num.rawEqual_trans _ _ _ h1 h2
+  exact Num.rawEq_trans _ _ _ h1 h2
 
 theorem rfnRawEq_refl (r : Rfn) : rfnRawEq r r = true := by
   cases r <;> simp [rfnRawEq, rfnBoundRawEq_refl, Tri.beq_iff]
@@ -298,77 +298,77 @@ open Value
 theorem wfAll_length_irrel : True := trivial
 
 mutual
-theorem rawB_refl : ∀ (t : Ty) (a : Payload), t.plain = true → a.wf t = true → rawB t a a = true
+theorem rawB_refl : ∀ (t : Ty) (a : Payload), t.plain = true → a.shaped t = true → rawB t a a = true
   | t, .marked m p, hp, ha => by
-    simp only [Payload.wf, Bool.and_eq_true] at ha
+    simp only [Payload.shaped, Bool.and_eq_true] at ha
     simp [rawB, rawB_refl t p hp ha.2]
   | _, .unk r, _, _ => by simp [rawB, rfnRawEq_refl]
   | _, .null, _, _ => by simp [rawB]
   | _, .b _, _, _ => by simp [rawB]
-  | _, .n _, _, _ => by simp [rawB, Num.rawEqual_refl]
+  | _, .n _, _, _ => by simp [rawB, Num.rawEq_refl]
   | _, .s _, _, _ => by simp [rawB]
   | t, .seq xs, hp, ha => by
-    cases t <;> simp [Payload.wf] at ha
+    cases t <;> simp [Payload.shaped] at ha
     case list e => simp only [Ty.plain] at hp; simp [rawB, rawBAll_refl e xs hp ha]
     case tuple ts => simp only [Ty.plain] at hp; simp [rawB, rawBZip_refl ts xs hp ha]
   | t, .smap ks xs, hp, ha => by
-    cases t <;> simp [Payload.wf] at ha
+    cases t <;> simp [Payload.shaped] at ha
     case map e =>
       simp only [Ty.plain] at hp
       simp [rawB, rawBMap_eq e ks xs ks xs ha.1.2 ha.1.2 ha.1.1 ha.1.1 rfl, rawBAll_refl e xs hp ha.2]
     case object ns ts os => simp only [Ty.plain] at hp; simp [rawB, rawBZip_refl ts xs hp ha.2]
   | t, .sset _ _, hp, ha => by
-    cases t <;> simp [Payload.wf] at ha
+    cases t <;> simp [Payload.shaped] at ha
     simp [Ty.plain] at hp
   | t, .caps, hp, ha => by
-    cases t <;> simp [Payload.wf] at ha
+    cases t <;> simp [Payload.shaped] at ha
     simp [Ty.plain] at hp
-  | _, .bad _, _, ha => by simp [Payload.wf] at ha
-theorem rawBAll_refl : ∀ (e : Ty) (xs : List Payload), e.plain = true → Payload.wfAll e xs = true →
+  | _, .bad _, _, ha => by simp [Payload.shaped] at ha
+theorem rawBAll_refl : ∀ (e : Ty) (xs : List Payload), e.plain = true → Payload.shapedAll e xs = true →
     rawBAll e xs xs = true
   | _, [], _, _ => by simp [rawBAll]
   | e, x :: xs, hp, ha => by
-    simp only [Payload.wfAll, Bool.and_eq_true] at ha
+    simp only [Payload.shapedAll, Bool.and_eq_true] at ha
     simp [rawBAll, rawB_refl e x hp ha.1, rawBAll_refl e xs hp ha.2]
 theorem rawBZip_refl : ∀ (ts : List Ty) (xs : List Payload), Ty.plainL ts = true →
-    Payload.wfZip ts xs = true → rawBZip ts xs xs = true
+    Payload.shapedZip ts xs = true → rawBZip ts xs xs = true
   | [], _, _, _ => by simp [rawBZip]
   | _ :: _, [], _, _ => by simp [rawBZip]
   | t :: ts, x :: xs, hp, ha => by
-    simp only [Payload.wfZip, Bool.and_eq_true] at ha
+    simp only [Payload.shapedZip, Bool.and_eq_true] at ha
     simp only [Ty.plainL, Bool.and_eq_true] at hp
     simp [rawBZip, rawB_refl t x hp.1 ha.1, rawBZip_refl ts xs hp.2 ha.2]
 end
 
 mutual
-theorem rawB_symm : ∀ (t : Ty) (a b : Payload), t.plain = true → a.wf t = true → b.wf t = true →
+theorem rawB_symm : ∀ (t : Ty) (a b : Payload), t.plain = true → a.shaped t = true → b.shaped t = true →
     rawB t a b = rawB t b a
   | t, .marked m p, q, hp, ha, hb => by
     cases q with
     | marked m' q' =>
-      simp only [Payload.wf, Bool.and_eq_true] at ha hb
+      simp only [Payload.shaped, Bool.and_eq_true] at ha hb
       simp only [rawB, rawB_symm t p q' hp ha.2 hb.2, BEq.comm (a := m)]
     | _ => cases t <;> simp [rawB]
   | t, .unk r, q, _, _, _ => by cases q <;> cases t <;> simp [rawB, rfnRawEq_symm r]
   | t, .null, q, _, _, _ => by cases q <;> cases t <;> simp [rawB]
   | t, .b x, q, _, _, _ => by cases q <;> cases t <;> simp [rawB, BEq.comm (a := x)]
-  | t, .n x, q, _, _, _ => by cases q <;> cases t <;> simp [rawB, Num.rawEqual_symm x]
+  | t, .n x, q, _, _, _ => by cases q <;> cases t <;> simp [rawB, Num.rawEq_symm x]
   | t, .s x, q, _, _, _ => by cases q <;> cases t <;> simp [rawB, BEq.comm (a := x)]
   | t, .seq xs, q, hp, ha, hb => by
-    cases t <;> simp [Payload.wf] at ha
+    cases t <;> simp [Payload.shaped] at ha
     case list e =>
       simp only [Ty.plain] at hp
-      cases q <;> simp [rawB, Payload.wf, Ty.isBool, Ty.isNumber, Ty.isString] at hb ⊢
+      cases q <;> simp [rawB, Payload.shaped, Ty.isBool, Ty.isNumber, Ty.isString] at hb ⊢
       case seq ys => rw [rawBAll_symm e xs ys hp ha hb, BEq.comm (a := xs.length)]
     case tuple ts =>
       simp only [Ty.plain] at hp
-      cases q <;> simp [rawB, Payload.wf, Ty.isBool, Ty.isNumber, Ty.isString] at hb ⊢
+      cases q <;> simp [rawB, Payload.shaped, Ty.isBool, Ty.isNumber, Ty.isString] at hb ⊢
       case seq ys => exact rawBZip_symm ts xs ys hp ha hb
   | t, .smap kx xs, q, hp, ha, hb => by
-    cases t <;> simp [Payload.wf] at ha
+    cases t <;> simp [Payload.shaped] at ha
     case map e =>
       simp only [Ty.plain] at hp
-      cases q <;> simp [rawB, Payload.wf, Ty.isBool, Ty.isNumber, Ty.isString] at hb ⊢
+      cases q <;> simp [rawB, Payload.shaped, Ty.isBool, Ty.isNumber, Ty.isString] at hb ⊢
       case smap ky ys =>
         by_cases hl : xs.length = ys.length
         · rw [rawBMap_eq e kx xs ky ys ha.1.2 hb.1.2 ha.1.1 hb.1.1 hl,
@@ -380,29 +380,29 @@ theorem rawB_symm : ∀ (t : Ty) (a b : Payload), t.plain = true → a.wf t = tr
           rfl
     case object ns ts os =>
       simp only [Ty.plain] at hp
-      cases q <;> simp [rawB, Payload.wf, Ty.isBool, Ty.isNumber, Ty.isString] at hb ⊢
+      cases q <;> simp [rawB, Payload.shaped, Ty.isBool, Ty.isNumber, Ty.isString] at hb ⊢
       case smap ky ys => exact rawBZip_symm ts xs ys hp ha.2 hb.2
   | t, .sset _ _, _, hp, ha, _ => by
-    cases t <;> simp [Payload.wf] at ha
+    cases t <;> simp [Payload.shaped] at ha
     simp [Ty.plain] at hp
   | t, .caps, _, hp, ha, _ => by
-    cases t <;> simp [Payload.wf] at ha
+    cases t <;> simp [Payload.shaped] at ha
     simp [Ty.plain] at hp
-  | _, .bad _, _, _, ha, _ => by simp [Payload.wf] at ha
-theorem rawBAll_symm : ∀ (e : Ty) (xs ys : List Payload), e.plain = true → Payload.wfAll e xs = true →
-    Payload.wfAll e ys = true → rawBAll e xs ys = rawBAll e ys xs
+  | _, .bad _, _, _, ha, _ => by simp [Payload.shaped] at ha
+theorem rawBAll_symm : ∀ (e : Ty) (xs ys : List Payload), e.plain = true → Payload.shapedAll e xs = true →
+    Payload.shapedAll e ys = true → rawBAll e xs ys = rawBAll e ys xs
   | _, [], ys, _, _, _ => by cases ys <;> simp [rawBAll]
   | _, _ :: _, [], _, _, _ => by simp [rawBAll]
   | e, x :: xs, y :: ys, hp, ha, hb => by
-    simp only [Payload.wfAll, Bool.and_eq_true] at ha hb
+    simp only [Payload.shapedAll, Bool.and_eq_true] at ha hb
     simp only [rawBAll, rawB_symm e x y hp ha.1 hb.1, rawBAll_symm e xs ys hp ha.2 hb.2]
 theorem rawBZip_symm : ∀ (ts : List Ty) (xs ys : List Payload), Ty.plainL ts = true →
-    Payload.wfZip ts xs = true → Payload.wfZip ts ys = true → rawBZip ts xs ys = rawBZip ts ys xs
+    Payload.shapedZip ts xs = true → Payload.shapedZip ts ys = true → rawBZip ts xs ys = rawBZip ts ys xs
   | [], _, _, _, _, _ => by simp [rawBZip]
-  | _ :: _, [], _, _, ha, _ => by simp [Payload.wfZip] at ha
-  | _ :: _, _ :: _, [], _, _, hb => by simp [Payload.wfZip] at hb
+  | _ :: _, [], _, _, ha, _ => by simp [Payload.shapedZip] at ha
+  | _ :: _, _ :: _, [], _, _, hb => by simp [Payload.shapedZip] at hb
   | t :: ts, x :: xs, y :: ys, hp, ha, hb => by
-    simp only [Payload.wfZip, Bool.and_eq_true] at ha hb
+    simp only [Payload.shapedZip, Bool.and_eq_true] at ha hb
     simp only [Ty.plainL, Bool.and_eq_true] at hp
     simp only [rawBZip, rawB_symm t x y hp.1 ha.1 hb.1, rawBZip_symm ts xs ys hp.2 ha.2 hb.2]
 end
@@ -413,14 +413,14 @@ namespace CtyModel
 open Value
 
 mutual
-theorem rawB_trans : ∀ (t : Ty) (a b c : Payload), t.plain = true → a.wf t = true → b.wf t = true →
-    c.wf t = true → rawB t a b = true → rawB t b c = true → rawB t a c = true
+theorem rawB_trans : ∀ (t : Ty) (a b c : Payload), t.plain = true → a.shaped t = true → b.shaped t = true →
+    c.shaped t = true → rawB t a b = true → rawB t b c = true → rawB t a c = true
   | t, .marked m p, b, c, hp, ha, hb, hc, h1, h2 => by
     cases b <;> simp only [rawB, Bool.false_eq_true] at h1
     rename_i m' q
     cases c <;> simp only [rawB, Bool.false_eq_true] at h2
     rename_i m'' r
-    simp only [Payload.wf, Bool.and_eq_true] at ha hb hc
+    simp only [Payload.shaped, Bool.and_eq_true] at ha hb hc
     simp only [Bool.and_eq_true, beq_iff_eq] at h1 h2
     simp only [rawB, Bool.and_eq_true, beq_iff_eq]
     exact ⟨h1.1.trans h2.1, rawB_trans t p q r hp ha.2 hb.2 hc.2 h1.2 h2.2⟩
@@ -442,21 +442,21 @@ theorem rawB_trans : ∀ (t : Ty) (a b c : Payload), t.plain = true → a.wf t =
     cases b <;> simp only [rawB, Bool.false_eq_true] at h1
     cases c <;> simp only [rawB, Bool.false_eq_true] at h2
     simp only [rawB]
-    exact Num.rawEqual_trans _ _ _ h1 h2
+    exact Num.rawEq_trans _ _ _ h1 h2
   | t, .s x, b, c, _, _, _, _, h1, h2 => by
     cases b <;> simp only [rawB, Bool.false_eq_true] at h1
     cases c <;> simp only [rawB, Bool.false_eq_true] at h2
     simp only [rawB, beq_iff_eq] at *
     exact h1.trans h2
   | t, .seq xs, b, c, hp, ha, hb, hc, h1, h2 => by
-    cases t <;> simp [Payload.wf] at ha
+    cases t <;> simp [Payload.shaped] at ha
     case list e =>
       simp only [Ty.plain] at hp
       cases b <;> simp [rawB] at h1
       rename_i ys
       cases c <;> simp [rawB] at h2
       rename_i zs
-      simp only [Payload.wf] at hb hc
+      simp only [Payload.shaped] at hb hc
       simp only [rawB, Bool.and_eq_true, beq_iff_eq]
       exact ⟨h1.1.trans h2.1, rawBAll_trans e xs ys zs hp ha hb hc h1.1 h1.2 h2.2⟩
     case tuple ts =>
@@ -465,18 +465,18 @@ theorem rawB_trans : ∀ (t : Ty) (a b c : Payload), t.plain = true → a.wf t =
       rename_i ys
       cases c <;> simp [rawB] at h2
       rename_i zs
-      simp only [Payload.wf] at hb hc
+      simp only [Payload.shaped] at hb hc
       simp only [rawB]
       exact rawBZip_trans ts xs ys zs hp ha hb hc h1 h2
   | t, .smap kx xs, b, c, hp, ha, hb, hc, h1, h2 => by
-    cases t <;> simp [Payload.wf] at ha
+    cases t <;> simp [Payload.shaped] at ha
     case map e =>
       simp only [Ty.plain] at hp
       cases b <;> simp [rawB] at h1
       rename_i ky ys
       cases c <;> simp [rawB] at h2
       rename_i kz zs
-      simp [Payload.wf] at hb hc
+      simp [Payload.shaped] at hb hc
       rw [rawBMap_eq e kx xs ky ys ha.1.2 hb.1.2 ha.1.1 hb.1.1 h1.1] at h1
       rw [rawBMap_eq e ky ys kz zs hb.1.2 hc.1.2 hb.1.1 hc.1.1 h2.1] at h2
       simp only [Bool.and_eq_true, decide_eq_true_eq] at h1 h2
@@ -491,36 +491,36 @@ theorem rawB_trans : ∀ (t : Ty) (a b c : Payload), t.plain = true → a.wf t =
       rename_i ky ys
       cases c <;> simp [rawB] at h2
       rename_i kz zs
-      simp [Payload.wf] at hb hc
+      simp [Payload.shaped] at hb hc
       simp only [rawB]
       exact rawBZip_trans ts xs ys zs hp ha.2 hb.2 hc.2 h1 h2
   | t, .sset _ _, _, _, hp, ha, _, _, _, _ => by
-    cases t <;> simp [Payload.wf] at ha
+    cases t <;> simp [Payload.shaped] at ha
     simp [Ty.plain] at hp
   | t, .caps, _, _, hp, ha, _, _, _, _ => by
-    cases t <;> simp [Payload.wf] at ha
+    cases t <;> simp [Payload.shaped] at ha
     simp [Ty.plain] at hp
-  | _, .bad _, _, _, _, ha, _, _, _, _ => by simp [Payload.wf] at ha
-theorem rawBAll_trans : ∀ (e : Ty) (xs ys zs : List Payload), e.plain = true → Payload.wfAll e xs = true →
-    Payload.wfAll e ys = true → Payload.wfAll e zs = true → xs.length = ys.length →
+  | _, .bad _, _, _, _, ha, _, _, _, _ => by simp [Payload.shaped] at ha
+theorem rawBAll_trans : ∀ (e : Ty) (xs ys zs : List Payload), e.plain = true → Payload.shapedAll e xs = true →
+    Payload.shapedAll e ys = true → Payload.shapedAll e zs = true → xs.length = ys.length →
     rawBAll e xs ys = true → rawBAll e ys zs = true → rawBAll e xs zs = true
   | _, [], _, zs, _, _, _, _, _, _, _ => by simp [rawBAll]
   | _, _ :: _, [], _, _, _, _, _, hl, _, _ => by simp at hl
   | _, _ :: _, _ :: _, [], _, _, _, _, _, _, _ => by simp [rawBAll]
   | e, x :: xs, y :: ys, z :: zs, hp, ha, hb, hc, hl, h1, h2 => by
-    simp only [Payload.wfAll, Bool.and_eq_true] at ha hb hc
+    simp only [Payload.shapedAll, Bool.and_eq_true] at ha hb hc
     simp only [rawBAll, Bool.and_eq_true] at h1 h2 ⊢
     exact ⟨rawB_trans e x y z hp ha.1 hb.1 hc.1 h1.1 h2.1,
       rawBAll_trans e xs ys zs hp ha.2 hb.2 hc.2 (by simpa using hl) h1.2 h2.2⟩
 theorem rawBZip_trans : ∀ (ts : List Ty) (xs ys zs : List Payload), Ty.plainL ts = true →
-    Payload.wfZip ts xs = true → Payload.wfZip ts ys = true → Payload.wfZip ts zs = true →
+    Payload.shapedZip ts xs = true → Payload.shapedZip ts ys = true → Payload.shapedZip ts zs = true →
     rawBZip ts xs ys = true → rawBZip ts ys zs = true → rawBZip ts xs zs = true
   | [], _, _, _, _, _, _, _, _, _ => by simp [rawBZip]
-  | _ :: _, [], _, _, _, ha, _, _, _, _ => by simp [Payload.wfZip] at ha
-  | _ :: _, _ :: _, [], _, _, _, hb, _, _, _ => by simp [Payload.wfZip] at hb
-  | _ :: _, _ :: _, _ :: _, [], _, _, _, hc, _, _ => by simp [Payload.wfZip] at hc
+  | _ :: _, [], _, _, _, ha, _, _, _, _ => by simp [Payload.shapedZip] at ha
+  | _ :: _, _ :: _, [], _, _, _, hb, _, _, _ => by simp [Payload.shapedZip] at hb
+  | _ :: _, _ :: _, _ :: _, [], _, _, _, hc, _, _ => by simp [Payload.shapedZip] at hc
   | t :: ts, x :: xs, y :: ys, z :: zs, hp, ha, hb, hc, h1, h2 => by
-    simp only [Payload.wfZip, Bool.and_eq_true] at ha hb hc
+    simp only [Payload.shapedZip, Bool.and_eq_true] at ha hb hc
     simp only [Ty.plainL, Bool.and_eq_true] at hp
     simp only [rawBZip, Bool.and_eq_true] at h1 h2 ⊢
     exact ⟨rawB_trans t x y z hp.1 ha.1 hb.1 hc.1 h1.1 h2.1,
